@@ -191,80 +191,285 @@ theorem requestURIPath_join (u : URLPath) (hp : hasPrefixSlash u.path = true) (h
       escapedPath_prefixSlash ⟨u.path, escapedPath u⟩ hp (Or.inr hb)
     simp [ne_nil_of_prefixSlash hb2]
 
-/-- Byte-for-byte fidelity of valid paths: a request path that starts with `/`, that the server accepts and that is a
-    valid RFC 3986 path (every byte a pchar, `/`, or part of a percent escape) is the path the transport writes. -/
-theorem pathPipeline_valid (p P : Str) (hp : hasPrefixSlash p = true) (hv : validEncoded p = true)
-    (h : unescape .path p = some P) : pathPipeline p = some p := by
+/-! ## `escapeInvalidPathBytes` (85b204e) -/
+
+set_option maxRecDepth 100000 in
+/-- the table of `escapeInvalidPathBytes` (regenerated punctuation) is exactly net/url's `validEncoded` byte test -/
+theorem pathByteValid_eq : ∀ c : UInt8, pathByteValid c = validEncodedByte c :=
+  forall_byte (by decide)
+
+set_option maxRecDepth 100000 in
+theorem ishex_valid : ∀ c : UInt8, ishex c = true → validEncodedByte c = true :=
+  forall_byte (by decide)
+
+theorem percent_valid : validEncodedByte 37 = true := by decide
+
+/-- the result holds only bytes net/url accepts -/
+theorem escapeInvalid_valid (p : Str) : validEncoded (escapeInvalidPathBytes p) = true := by
+  unfold validEncoded
+  induction p with
+  | nil => simp [escapeInvalidPathBytes]
+  | cons c rest ih =>
+    unfold escapeInvalidPathBytes
+    by_cases hc : pathByteValid c = true
+    · simp only [hc, if_true, List.all_cons, ih, Bool.and_true]
+      rw [← pathByteValid_eq]; exact hc
+    · simp only [hc, Bool.false_eq_true, if_false, List.all_cons, ih, Bool.and_true, percent_valid, Bool.true_and,
+        (upperhex_valid c).1, (upperhex_valid c).2]
+
+/-- a path that holds only such bytes is returned as it is -/
+theorem escapeInvalid_id (p : Str) (hv : validEncoded p = true) : escapeInvalidPathBytes p = p := by
+  unfold validEncoded at hv
+  induction p with
+  | nil => rfl
+  | cons c rest ih =>
+    simp only [List.all_cons, Bool.and_eq_true] at hv
+    unfold escapeInvalidPathBytes
+    have hc : pathByteValid c = true := by rw [pathByteValid_eq]; exact hv.1
+    simp only [hc, if_true, ih hv.2]
+
+theorem escapeInvalid_nil : escapeInvalidPathBytes [] = [] := rfl
+
+theorem escapeInvalid_prefixSlash (p : Str) (hp : hasPrefixSlash p = true) : hasPrefixSlash (escapeInvalidPathBytes p) = true := by
+  cases p with
+  | nil => simp [hasPrefixSlash] at hp
+  | cons c rest =>
+    simp only [hasPrefixSlash, decide_eq_true_eq] at hp
+    subst hp
+    unfold escapeInvalidPathBytes
+    have : pathByteValid 47 = true := by decide
+    simp [this, hasPrefixSlash]
+
+theorem unescape_escapeInvalid_step (c : UInt8) (rest P : Str) (hc : c ≠ 37)
+    (ih : ∀ R, unescape .path rest = some R → unescape .path (escapeInvalidPathBytes rest) = some R)
+    (h : unescape .path (c :: rest) = some P) : unescape .path (escapeInvalidPathBytes (c :: rest)) = some P := by
+  unfold unescape at h
+  simp only [hc, if_false] at h
+  cases hr : unescape .path rest with
+  | none => rw [hr] at h; simp at h
+  | some R =>
+    rw [hr] at h
+    have ih' := ih R hr
+    unfold escapeInvalidPathBytes
+    by_cases hv : pathByteValid c = true
+    · simp only [hv, if_true]
+      unfold unescape
+      simp only [hc, if_false, ih']
+      exact h
+    · simp only [hv, Bool.false_eq_true, if_false]
+      unfold unescape
+      simp only [if_true, (ishex_upperhex c).1, (ishex_upperhex c).2, Bool.and_self, ih', hexRound]
+      simpa using h
+
+theorem unescape_escapeInvalid_hex (a b : UInt8) (rest' P : Str)
+    (ih : ∀ R, unescape .path rest' = some R → unescape .path (escapeInvalidPathBytes rest') = some R)
+    (h : unescape .path (37 :: a :: b :: rest') = some P) :
+    unescape .path (escapeInvalidPathBytes (37 :: a :: b :: rest')) = some P := by
+  unfold unescape at h
+  simp only [if_true] at h
+  by_cases hh : (ishex a && ishex b) = true
+  · simp only [hh, if_true] at h
+    cases hr : unescape .path rest' with
+    | none => rw [hr] at h; simp at h
+    | some R =>
+      rw [hr] at h
+      have ih' := ih R hr
+      simp only [Bool.and_eq_true] at hh
+      have va : pathByteValid a = true := by rw [pathByteValid_eq]; exact ishex_valid a hh.1
+      have vb : pathByteValid b = true := by rw [pathByteValid_eq]; exact ishex_valid b hh.2
+      have v37 : pathByteValid 37 = true := by decide
+      unfold escapeInvalidPathBytes
+      simp only [v37, if_true]
+      unfold escapeInvalidPathBytes
+      simp only [va, if_true]
+      unfold escapeInvalidPathBytes
+      simp only [vb, if_true]
+      unfold unescape
+      simp only [if_true, hh.1, hh.2, Bool.and_self, ih']
+      exact h
+  · simp [hh] at h
+
+/-- existing escapes are left alone and every byte that is escaped decodes to itself: the result decodes to the same path -/
+theorem unescape_escapeInvalid : ∀ (p P : Str), unescape .path p = some P → unescape .path (escapeInvalidPathBytes p) = some P
+  | [], P, h => by simpa [escapeInvalidPathBytes] using h
+  | [c], P, h => by
+    by_cases hc : c = 37
+    · subst hc; simp [unescape] at h
+    · exact unescape_escapeInvalid_step c [] P hc (fun R hR => unescape_escapeInvalid [] R hR) h
+  | [c, a], P, h => by
+    by_cases hc : c = 37
+    · subst hc; simp [unescape] at h
+    · exact unescape_escapeInvalid_step c [a] P hc (fun R hR => unescape_escapeInvalid [a] R hR) h
+  | c :: a :: b :: rest', P, h => by
+    by_cases hc : c = 37
+    · subst hc
+      exact unescape_escapeInvalid_hex a b rest' P (fun R hR => unescape_escapeInvalid rest' R hR) h
+    · exact unescape_escapeInvalid_step c (a :: b :: rest') P hc (fun R hR => unescape_escapeInvalid (a :: b :: rest') R hR) h
+
+/-- `escape` writes only bytes net/url accepts -/
+theorem escape_valid (P : Str) : validEncoded (escape .path P) = true := by
+  unfold validEncoded
+  rw [List.all_eq_true]
+  intro b hb
+  induction P with
+  | nil => simp [escape] at hb
+  | cons c s ih =>
+    unfold escape at hb
+    by_cases hc : shouldEscape c .path = true
+    · simp only [hc, if_true, show ¬ (c = 32 ∧ Mode.path = Mode.query) by simp, if_false, List.mem_cons] at hb
+      rcases hb with hb | hb | hb | hb
+      · subst hb; decide
+      · subst hb; exact (upperhex_valid c).1
+      · subst hb; exact (upperhex_valid c).2
+      · exact ih hb
+    · have hc' : shouldEscape c .path = false := by simpa using hc
+      simp only [hc', Bool.false_eq_true, if_false, List.mem_cons] at hb
+      rcases hb with hb | hb
+      · subst hb; unfold validEncodedByte; simp [hc']
+      · exact ih hb
+
+/-- `escapedPath` of a location whose raw path is empty or a valid encoding of its path -/
+theorem escapedPath_good (P q : Str) (hP : hasPrefixSlash P = true)
+    (hq : q = [] ∨ (hasPrefixSlash q = true ∧ validEncoded q = true ∧ unescape .path q = some P)) :
+    ∃ e, escapedPath ⟨P, q⟩ = e ∧ hasPrefixSlash e = true ∧ validEncoded e = true ∧ unescape .path e = some P ∧
+      (q = [] → e = escape .path P) ∧ (q ≠ [] → e = q) := by
+  have hPs : P ≠ kStar := by intro hs; rw [hs, kStar_noSlash] at hP; cases hP
+  rcases hq with h0 | ⟨h1, h2, h3⟩
+  · subst h0
+    refine ⟨escape .path P, ?_, escape_prefixSlash P hP, ?_, unescape_escape _ _, fun _ => rfl, fun h => absurd rfl h⟩
+    · unfold escapedPath; simp [hPs]
+    · exact escape_valid P
+  · have hne := ne_nil_of_prefixSlash h1
+    refine ⟨q, ?_, h1, h2, h3, fun h => absurd h hne, fun _ => rfl⟩
+    unfold escapedPath; simp [hne, h2, h3]
+
+/-- from a well-formed location the transport writes its escaped path -/
+theorem pathFromLocation_good (P q : Str) (hP : hasPrefixSlash P = true)
+    (hq : q = [] ∨ (hasPrefixSlash q = true ∧ validEncoded q = true ∧ unescape .path q = some P)) :
+    pathFromLocation ⟨P, q⟩ = some (escapedPath ⟨P, q⟩) := by
+  obtain ⟨e, he, hes, hev, hed, _, _⟩ := escapedPath_good P q hP hq
+  have hene := ne_nil_of_prefixSlash hes
+  unfold pathFromLocation
+  have hls : locationStringPath ⟨P, q⟩ = e := by
+    unfold locationStringPath; simp only [he]; simp [hes]
+  rw [hls, setPath_path e P hed]
+  simp only
+  have hcond : ¬ (¬ hasSuffixSlash P = true ∧ hasSuffixSlash P = true) := fun hc => hc.1 hc.2
+  simp only [hcond, if_false]
+  have hesc := escapedPath_setPath_valid e P hes hev hed
+  have hr : GoodRaw (if e = escape .path P then [] else e) := by
+    by_cases hh : e = escape .path P
+    · left; simp [hh]
+    · right; simp [hh, hes]
+  rcases requestURIPath_join ⟨P, if e = escape .path P then [] else e⟩ hP hr with hj | hj
+  · rw [hj, hesc, he]
+  · rw [hj, hesc, he]
+    have : escapedPath ⟨P, e⟩ = e := by unfold escapedPath; simp [hene, hev, hed]
+    rw [this]
+
+/-- **Byte-for-byte fidelity of EVERY path the server accepts**: the path the transport writes is the client's escaped path
+    with exactly the bytes net/url rejects percent-encoded — every escape the client wrote (`%2F`, `%2f`, `%25`, `%41`, …) and
+    every valid byte stays as it is. -/
+theorem pathPipeline_exact (p P : Str) (hp : hasPrefixSlash p = true) (h : unescape .path p = some P) :
+    pathPipeline p = some (escapeInvalidPathBytes p) := by
   have hP := unescape_prefixSlash p P hp h
-  have hne := ne_nil_of_prefixSlash hp
-  have hesc := escapedPath_setPath_valid p P hp hv h
   unfold pathPipeline
   rw [setPath_path p P h]
   simp only
-  have hls : locationStringPath ⟨P, if p = escape .path P then [] else p⟩ = p := by
-    unfold locationStringPath; simp only [hesc]; simp [hp]
-  rw [hls, setPath_path p P h]
-  simp only [Bool.not_eq_true, and_not_self, if_false]
-  -- the trailing-slash rule is a no-op: both paths are `P`
-  have hcond : ¬ (hasSuffixSlash P = false ∧ hasSuffixSlash P = true) := by
-    intro hc; rw [hc.1] at hc; cases hc.2
-  have hr : GoodRaw (if p = escape .path P then [] else p) := by
-    by_cases he : p = escape .path P
-    · left; simp [he.symm]
-    · right; simp [he, hp]
-  rcases requestURIPath_join ⟨P, if p = escape .path P then [] else p⟩ hP hr with hj | hj
-  · simp only [hcond, if_false]
-    rw [hj, hesc]
-  · simp only [hcond, if_false]
-    rw [hj, hesc]
-    -- escapedPath ⟨P, p⟩ = p
-    have : escapedPath ⟨P, p⟩ = p := by unfold escapedPath; simp [hne, hv, h]
-    rw [this]
+  by_cases he : p = escape .path P
+  · simp only [if_pos he, escapeInvalid_nil]
+    rw [pathFromLocation_good P [] hP (Or.inl rfl)]
+    obtain ⟨e, hee, _, hev, _, h0, _⟩ := escapedPath_good P [] hP (Or.inl rfl)
+    rw [hee, h0 rfl, ← he]
+    rw [h0 rfl, ← he] at hev
+    rw [escapeInvalid_id p hev]
+  · simp only [if_neg he]
+    have hq : hasPrefixSlash (escapeInvalidPathBytes p) = true ∧ validEncoded (escapeInvalidPathBytes p) = true ∧
+        unescape .path (escapeInvalidPathBytes p) = some P :=
+      ⟨escapeInvalid_prefixSlash p hp, escapeInvalid_valid p, unescape_escapeInvalid p P h⟩
+    rw [pathFromLocation_good P _ hP (Or.inr hq)]
+    obtain ⟨e, hee, _, _, _, _, h1⟩ := escapedPath_good P _ hP (Or.inr hq)
+    rw [hee, h1 (ne_nil_of_prefixSlash hq.1)]
+
+/-- valid paths: byte for byte -/
+theorem pathPipeline_valid (p P : Str) (hp : hasPrefixSlash p = true) (hv : validEncoded p = true)
+    (h : unescape .path p = some P) : pathPipeline p = some p := by
+  rw [pathPipeline_exact p P hp h, escapeInvalid_id p hv]
 
 /-- Decoded fidelity of every path: whatever the escaping, the path the transport writes decodes to the same path. -/
 theorem pathPipeline_decoded (p P : Str) (hp : hasPrefixSlash p = true) (h : unescape .path p = some P) :
-    ∃ out, pathPipeline p = some out ∧ unescape .path out = some P ∧ hasPrefixSlash out = true := by
-  have hP := unescape_prefixSlash p P hp h
-  unfold pathPipeline
-  rw [setPath_path p P h]
-  simp only
-  have hr0 : GoodRaw (if p = escape .path P then [] else p) := by
-    by_cases he : p = escape .path P
-    · left; simp [he.symm]
-    · right; simp [he, hp]
-  let u0 : URLPath := ⟨P, if p = escape .path P then [] else p⟩
-  have he0 : hasPrefixSlash (escapedPath u0) = true := escapedPath_prefixSlash u0 hP hr0
-  have hd0 : unescape .path (escapedPath u0) = some P := unescape_escapedPath u0
-  have hls : locationStringPath u0 = escapedPath u0 := by
-    unfold locationStringPath; simp [he0]
-  show ∃ out, (match setPath (locationStringPath u0) with
-    | none => none
-    | some h => some (requestURIPath (joinURLPath ⟨[], []⟩
-        ⟨if ¬ hasSuffixSlash h.path = true ∧ hasSuffixSlash u0.path = true then h.path ++ [47] else h.path, h.rawPath⟩))) = some out ∧ _
-  rw [hls, setPath_path _ P hd0]
-  simp only
-  have hcond : ¬ (¬ hasSuffixSlash P = true ∧ hasSuffixSlash u0.path = true) := by
-    intro hc; exact hc.1 hc.2
-  simp only [hcond, if_false]
-  let e0 := escapedPath u0
-  have hr1 : GoodRaw (if e0 = escape .path P then [] else e0) := by
-    by_cases he : e0 = escape .path P
-    · left; simp [he]
-    · right; simp [he, e0, he0]
-  let u1 : URLPath := ⟨P, if e0 = escape .path P then [] else e0⟩
-  rcases requestURIPath_join u1 hP hr1 with hj | hj
-  · refine ⟨_, rfl, ?_, ?_⟩
-    · show unescape .path (requestURIPath (joinURLPath ⟨[], []⟩ u1)) = some P
-      rw [hj]; exact unescape_escapedPath u1
-    · show hasPrefixSlash (requestURIPath (joinURLPath ⟨[], []⟩ u1)) = true
-      rw [hj]; exact escapedPath_prefixSlash u1 hP hr1
-  · refine ⟨_, rfl, ?_, ?_⟩
-    · show unescape .path (requestURIPath (joinURLPath ⟨[], []⟩ u1)) = some P
-      rw [hj]; exact unescape_escapedPath ⟨P, escapedPath u1⟩
-    · show hasPrefixSlash (requestURIPath (joinURLPath ⟨[], []⟩ u1)) = true
-      rw [hj]; exact escapedPath_prefixSlash ⟨P, escapedPath u1⟩ hP (Or.inr (escapedPath_prefixSlash u1 hP hr1))
+    ∃ out, pathPipeline p = some out ∧ unescape .path out = some P ∧ hasPrefixSlash out = true :=
+  ⟨_, pathPipeline_exact p P hp h, unescape_escapeInvalid p P h, escapeInvalid_prefixSlash p hp⟩
 
-/-! ## query: parse ∘ encode -/
+set_option maxRecDepth 100000 in
+theorem invalid_not_unreserved : ∀ c : UInt8, validEncodedByte c = false → isUnreserved c = false ∧ c ≠ 37 :=
+  forall_byte (by decide)
+
+theorem rfcNorm_escapeInvalid_step (c : UInt8) (rest : Str) (hc : c ≠ 37)
+    (ih : rfcNorm (escapeInvalidPathBytes rest) = rfcNorm rest) :
+    rfcNorm (escapeInvalidPathBytes (c :: rest)) = rfcNorm (c :: rest) := by
+  unfold escapeInvalidPathBytes
+  by_cases hv : pathByteValid c = true
+  · simp only [hv, if_true]
+    unfold rfcNorm
+    simp only [hc, if_false, ih]
+  · have hv' : validEncodedByte c = false := by rw [← pathByteValid_eq]; simpa using hv
+    obtain ⟨hu, _⟩ := invalid_not_unreserved c hv'
+    simp only [hv, Bool.false_eq_true, if_false]
+    conv => lhs; unfold rfcNorm
+    conv => rhs; unfold rfcNorm
+    simp only [if_true, (ishex_upperhex c).1, (ishex_upperhex c).2, Bool.and_self, hexRound, hu, Bool.false_eq_true,
+      if_false, hc, hv', ih]
+
+theorem rfcNorm_escapeInvalid_hex (a b : UInt8) (rest' : Str) (hh : (ishex a && ishex b) = true)
+    (ih : rfcNorm (escapeInvalidPathBytes rest') = rfcNorm rest') :
+    rfcNorm (escapeInvalidPathBytes (37 :: a :: b :: rest')) = rfcNorm (37 :: a :: b :: rest') := by
+  simp only [Bool.and_eq_true] at hh
+  have va : pathByteValid a = true := by rw [pathByteValid_eq]; exact ishex_valid a hh.1
+  have vb : pathByteValid b = true := by rw [pathByteValid_eq]; exact ishex_valid b hh.2
+  have v37 : pathByteValid 37 = true := by decide
+  unfold escapeInvalidPathBytes
+  simp only [v37, if_true]
+  unfold escapeInvalidPathBytes
+  simp only [va, if_true]
+  unfold escapeInvalidPathBytes
+  simp only [vb, if_true]
+  unfold rfcNorm
+  simp only [if_true, hh.1, hh.2, Bool.and_self, ih]
+
+/-- RFC 3986 normal form is untouched: escaping a byte that may not appear raw is what the normal form does itself -/
+theorem rfcNorm_escapeInvalid : ∀ (p P : Str), unescape .path p = some P → rfcNorm (escapeInvalidPathBytes p) = rfcNorm p
+  | [], _, _ => rfl
+  | [c], P, h => by
+    by_cases hc : c = 37
+    · subst hc; simp [unescape] at h
+    · exact rfcNorm_escapeInvalid_step c [] hc rfl
+  | [c, a], P, h => by
+    by_cases hc : c = 37
+    · subst hc; simp [unescape] at h
+    · unfold unescape at h
+      simp only [hc, if_false] at h
+      cases hr : unescape .path [a] with
+      | none => rw [hr] at h; simp at h
+      | some R => exact rfcNorm_escapeInvalid_step c [a] hc (rfcNorm_escapeInvalid [a] R hr)
+  | c :: a :: b :: rest', P, h => by
+    by_cases hc : c = 37
+    · subst hc
+      unfold unescape at h
+      simp only [if_true] at h
+      by_cases hh : (ishex a && ishex b) = true
+      · simp only [hh, if_true] at h
+        cases hr : unescape .path rest' with
+        | none => rw [hr] at h; simp at h
+        | some R => exact rfcNorm_escapeInvalid_hex a b rest' hh (rfcNorm_escapeInvalid rest' R hr)
+      · simp [hh] at h
+    · unfold unescape at h
+      simp only [hc, if_false] at h
+      cases hr : unescape .path (a :: b :: rest') with
+      | none => rw [hr] at h; simp at h
+      | some R => exact rfcNorm_escapeInvalid_step c (a :: b :: rest') hc (rfcNorm_escapeInvalid (a :: b :: rest') R hr)
+
+/-! ## query -/
 theorem splitOn_cons_eq (sep : UInt8) (r : Str) : splitOn sep (sep :: r) = [] :: splitOn sep r := by
   rw [splitOn]; simp
 
